@@ -188,6 +188,17 @@ class C10(Property):
         rc, out, res = vlib.go_run(self.bin, cases, tag="c10", timeout=900)
         if rc != 0 or len(res) != len(cases):
             raise ExecError("c10 executor rc=%s: %s" % (rc, out[-2000:]))
+        # a hang or a leak under a forced schedule is deterministic: re-run such cases alone in a
+        # fresh process and keep the observation only if it persists (guards against a loaded machine
+        # disturbing the quiescence detection)
+        sus = [i for i, r in enumerate(res) if not r.get("err") and (r.get("result") is None or r.get("census"))]
+        if sus and len(sus) <= 40:
+            rc2, out2, res2 = vlib.go_run(self.bin, [cases[i] for i in sus], tag="c10r", timeout=600)
+            if rc2 == 0 and len(res2) == len(sus):
+                for i, r2 in zip(sus, res2):
+                    if not r2.get("err") and r2.get("result") is not None and not r2.get("census"):
+                        ctx.notes.append("case %s: hang/leak not reproduced on re-run (discarded first observation)" % cases[i].get("id"))
+                        res[i] = r2
         obs = []
         for r in res:
             if r.get("err"):
